@@ -356,9 +356,11 @@ def regression_cases():
         [1, 1, 100, 3, 123], [6, 1] + u(5), [2, 101, 48], [14, 1, 101, 0], [16, 2, 101],
         [1, 3, 100, 3, 123], [6, 3] + u(77), [13, 2], [13, 3], [7, 2, 3], [13, 2], [11, 2], [12, 2], [13, 2], [9, 2], [13, 2], [11, 2],
         [13, 2], [13, 3], [8, 2, 3], [13, 2], [11, 2], [10, 2], [4, 2] + u(1), [6, 2] + u(1)]))
-    # a filter of 2^32 + 64 bits (512 MiB; a size the constructor accepts), EMPTY: serialize (24 bytes), deserialize / wrap:
-    # the capacity must survive (before fixes/15_bloom_deserialize_capacity_64bit.patch it came back as 64)
-    big = 2**32 + 64
+    # a filter of 2^32 bits (512 MiB, the largest single allocation the sanitizer settings of the harness allow; the
+    # constructor accepts up to 2^34), EMPTY: serialize (24 bytes), deserialize / wrap: the capacity must survive (before
+    # fixes/15_bloom_deserialize_capacity_64bit.patch num_longs << 6 was computed on uint32_t: 0 for this filter, so
+    # deserialize threw; 2^32 + 64 bits came back as 64 bits and lost every item: coq/Regression_bloom.v)
+    big = 2**32
     cs.append(dict(id='reg_capacity_above_2_32', tags=['regression', 'serialize', 'deserialize', 'wrap'], ops=[
         [1, 1, big, 3, 123], [12, 1], [2, 101, 64], [14, 1, 101, 0], [20, 101], [15, 2, 101, 0], [12, 2], [19, 2],
         [15, 2, 101, 1], [12, 2], [19, 2], [16, 2, 101], [12, 2], [5, 2] + u(5)]))
@@ -422,8 +424,12 @@ def oracle(case, irecs, mrecs):
             img_cap.pop(op[2], None)
             if r != [-1] and op[1] in info_cap:
                 img_cap[op[2]] = info_cap[op[1]]
-        if code in (15, 16, 17) and r != [-1] and op[2] in img_cap:
-            want_cap[op[1]] = img_cap[op[2]]
+        if code in (15, 16, 17) and op[2] in img_cap:
+            if r != [-1]:
+                want_cap[op[1]] = img_cap[op[2]]
+            elif mr != [-1]:
+                fail('restored_capacity_differs', 'deserialize/wrap of the serialized image of a filter of capacity %d was '
+                     'refused' % img_cap[op[2]], i)
         if code == 5 and S and r != [-1]:
             must, haz, _allset = S
             if must and r == [0]:
